@@ -15,7 +15,7 @@ func init() {
 	register(&Property{
 		ID:      "C18",
 		NeedSSA: true,
-		Decided: "Structural necessary conditions: (aad) for every module type the writer-side and reader-side makeAAD call sites both exist, pass the same number of ordinals, and put row-group, column and page ordinals in that order (no ordinal position is fed from a field of another role); page header modules seal the serialised header and page body modules the body; (plaintext) in writeDataPage, writeDictionaryPage and writeBloomFilter, on the edge where the column key is non-nil every byte handed to the output derives from encryptModule, and the plaintext emission is not reachable from that edge; (config) every option-merging Configure method carries every field of its configuration struct from the field of the same name (an Encryption/Decryption option is never dropped); (construct) every path that creates column writers for a writer with encryption configured installs the column key and AAD state; (auth) bytes decoded on the encrypted read path come from decryptModule (C13.provenance) and no error of decryptModule, readDecryptedEnvelopeFrom, verifyFooterSignature or a KeyRetriever is dropped or swallowed; the decryption helpers never return a bare io.EOF of their own; (rand) buffers filled from crypto/rand (nonces, file identifier) have a non-zero constant length; (ordinals) the page ordinal advances once per page written, only after the page was accepted; (nocopy) the verbatim-copy eligibility consults the encryption state of both sides; (reset) the ordinal state of column writers is re-established on Reset (C17.reset). (readord) on the read side, wherever the page cursor of FilePages is repositioned the data page ordinal of the decryption state is assigned on the same path, and wherever that ordinal is repositioned the dictionary-page flag is assigned too (fields found by role). (fileid) the function that draws the random file identifier is reachable from (*writer).reset, which also assigns the column writers' reference to it; (missingkey) the branch accepting ErrKeyNotFound stores into a field of the column chunk, and every consumer of the chunk's decryption key also loads that field. (nilconfig) every dereference of FileConfig.Decryption is dominated by the non-nil edge of a test of that field. (footerstrip) a function that stores a ColumnChunk.EncryptedColumnMetadata also overwrites the MetaData of the chunk recorded in the footer with the zero value as a whole, on a branch of a test computed from the EncryptedFooter setting. (ordbits) a bit-provenance analysis of the bytes makeAAD appends for each int16 ordinal (constant shifts and masks, integer conversions; any other operation is undecided and fails) shows that together they carry all sixteen bits of the ordinal.",
+		Decided: "Structural necessary conditions: (aad) for every module type the writer-side and reader-side makeAAD call sites both exist, pass the same number of ordinals, and put row-group, column and page ordinals in that order (no ordinal position is fed from a field of another role); page header modules seal the serialised header and page body modules the body; (plaintext) in writeDataPage, writeDictionaryPage and writeBloomFilter, on the edge where the column key is non-nil every byte handed to the output derives from encryptModule, and the plaintext emission is not reachable from that edge; (config) every option-merging Configure method carries every field of its configuration struct from the field of the same name (an Encryption/Decryption option is never dropped); (construct) every path that creates column writers for a writer with encryption configured installs the column key and AAD state; (auth) bytes decoded on the encrypted read path come from decryptModule (C13.provenance) and no error of decryptModule, readDecryptedEnvelopeFrom, verifyFooterSignature or a KeyRetriever is dropped or swallowed; the decryption helpers never return a bare io.EOF of their own; (rand) buffers filled from crypto/rand (nonces, file identifier) have a non-zero constant length; (ordinals) the page ordinal advances once per page written, only after the page was accepted; (nocopy) the verbatim-copy eligibility consults the encryption state of both sides; (reset) the ordinal state of column writers is re-established on Reset (C17.reset). (readord) on the read side, wherever the page cursor of FilePages is repositioned the data page ordinal of the decryption state is assigned on the same path, and wherever that ordinal is repositioned the dictionary-page flag is assigned too (fields found by role). (fileid) the function that draws the random file identifier is reachable from (*writer).reset, which also assigns the column writers' reference to it; (missingkey) the branch accepting ErrKeyNotFound stores into a field of the column chunk, and every consumer of the chunk's decryption key also loads that field. (nilconfig) every dereference of FileConfig.Decryption is dominated by the non-nil edge of a test of that field. (footerstrip) a function that stores a ColumnChunk.EncryptedColumnMetadata also overwrites the MetaData of the chunk recorded in the footer with the zero value as a whole, on a branch of a test computed from the EncryptedFooter setting. (ordbits) a bit-provenance analysis of the bytes makeAAD appends for each int16 ordinal (constant shifts and masks, integer conversions; any other operation is undecided and fails) shows that together they carry all sixteen bits of the ordinal. (signed) in the function that verifies the footer signature, from the point where the bytes trailing the decoded footer are measured no successful return is reachable without passing the verification or a test of the footer's declared EncryptionAlgorithm.",
 		NotDecided: "cryptographic strength; exhaustive tamper detection; equality of decrypted rows; whether pages of a concurrently filled row group can know their row-group ordinal before commit.",
 		Assumptions: []string{"AES-GCM Seal/Open authenticate plaintext and AAD (crypto/cipher)"},
 		Run:         runC18,
@@ -26,6 +26,7 @@ func runC18(c *Ctx) {
 	c18NilConfig(c)
 	c18FooterStrip(c)
 	c18OrdBits(c)
+	c18Signed(c)
 	c18AAD(c)
 	c18Plaintext(c)
 	runConfigMergeRule(c, "C18.config", map[string]string{
